@@ -357,3 +357,35 @@ def r_default_rmw(cx):
               if bad is None else "default CoordinateSet::%s: %s - containers relying on the default lose the stored "
               "dimensions the operator does not work on" % (meth, bad), cx.where(t["span"]))
     cx.count("R-DEFAULT-RMW", "methods", n)
+
+
+# ---------------------------------------------------------------------------------------------------------------------
+# R-ALL-DIMS (C19): the element-wise default operations cover every dimension of the tuple
+
+@rule("R-ALL-DIMS", ["C19"])
+def r_all_dims(cx):
+    """The default `scale` and `dot` of CoordinateTuple are element-wise over *all* dimensions: their loops range over
+    0..self.dim() (not over a shorter prefix such as min(dim, 3))."""
+    import pertuple
+    n = 0
+    for meth in ("scale", "dot"):
+        name = CTUP + "::" + meth
+        if not cx.f.has_fn(name):
+            cx.ob("R-ALL-DIMS", meth, False, "anchor-missing: default method %s" % name)
+            continue
+        f = cx.f.fn(name)
+        loops = [lp for lp in f.loops() if lp.parent is None]
+        for k, lp in enumerate(loops):
+            n += 1
+            x = pertuple.iterator_entry_value(f, lp)
+            ok = False
+            if x is not None and x[0] == "call" and isinstance(x[1], str) and x[1].endswith("into_iter"):
+                r = mir.strip_refs(x[2][0])
+                if r[0] == "agg" and "Range" in str(r[1]) and "Inclusive" not in str(r[1]) and len(r[2]) == 2:
+                    lo, hi = r[2]
+                    ok = lo[0] == "const" and lo[2] == 0 and _is_dim_call(hi)
+            cx.ob("R-ALL-DIMS", "%s/loop%d" % (meth, k), ok,
+                  "default %s ranges over 0..self.dim()" % meth if ok else
+                  "the default CoordinateTuple::%s does not range over all of 0..self.dim(): some dimension does not "
+                  "take part in the element-wise operation" % meth, cx.where(f.term(lp.header)["span"]))
+    cx.count("R-ALL-DIMS", "loops", n)
